@@ -80,7 +80,52 @@ def genuine_block(info):
     oi = oA % _max(1, nrows); oj = oA / _max(1, nrows)
     return z3.Implies(nrows > 0, z3.And(oi + m <= nrows, oj + n <= ncols))
 
-KERNELS = {'gemv': (build_gemv, oracle_gemv, [(t, a, b) for t in 'NT' for a in (1, -1) for b in (1, -1)])}
+# ------------------------------------------------------------------------------------------ symv
+
+def build_symv(mod, B, uplo, six, siy):
+    from vp.llsym import scen_kernel as K, exec as X
+    sc = K.KernelScenario(mod, nmax_scal=B['M'])
+    I = z3.Int
+    nrows, ncols, n, oA, ix, iy, ox, oy, LX, LY = [I(v) for v in ('nrows', 'ncols', 'n', 'oA', 'ix', 'iy', 'ox', 'oy', 'LX', 'LY')]
+    alpha, beta = z3.Real('alpha'), z3.Real('beta')
+    A = sc.new_ccs('A', nrows, ncols, B['NNZ'], B['C'])
+    sc.array('x', 'real', LX); sc.array('y', 'real', LY)
+    P = [nrows <= B['R'], n <= B['M'], LX >= 0, LY >= 0, LX <= B['L'], LY <= B['L'], ox <= B['OFF'], oy <= B['OFF']]
+    P += [(ix > 0) if six > 0 else (ix < 0), (iy > 0) if siy > 0 else (iy < 0), _abs(ix) <= B['INC'], _abs(iy) <= B['INC']]
+    # ---- contract transcribed from base_symv (base.c)
+    P += [n > 0, oA >= 0, oA + (n - 1)*_max(1, nrows) + n <= nrows*ncols, ox >= 0, ox + (n - 1)*_abs(ix) + 1 <= LX, oy >= 0, oy + (n - 1)*_abs(iy) + 1 <= LY]
+    sc.pre += P
+    args = [85 if uplo == 'U' else 76, n, alpha, z3.RealVal(0), A, oA, X.Ptr('arr:x', 8*ox), ix, sc.num('beta', beta), X.Ptr('arr:y', 8*oy), iy]
+    info = dict(nrows=nrows, ncols=ncols, m=n, n=n, oA=oA, ix=ix, iy=iy, ox=ox, oy=oy, LX=LX, LY=LY, alpha=alpha, beta=beta, uplo=uplo)
+    return sc, 'sp_dsymv', args, info
+
+def oracle_symv(sc, B, info, final):
+    """y := alpha*S*x + beta*y with S the symmetric matrix whose `uplo` triangle is the n x n block of A at offsetA"""
+    from vp.llsym import scen_kernel as K
+    g = info; U = g['uplo'] == 'U'
+    nrows, n, oA = g['nrows'], g['n'], g['oA']
+    y0 = sc.arrays['y']['init']; x0 = sc.arrays['x']['init']
+    yf = final.get(('arr', 'y'), y0)
+    oi = oA % _max(1, nrows); oj = oA / _max(1, nrows)
+    obl = []; touched = []
+    for i in range(B['M']):
+        py = pos(g['oy'], i, n, g['iy'])
+        tot = z3.RealVal(0)
+        for j in range(B['M']):
+            xj = z3.Select(x0, pos(g['ox'], j, n, g['ix']))
+            term = (lambda xj_: (lambda v: K.fm(K.fm(g['alpha'], v), xj_)))(xj)
+            r_, c_ = (min(i, j), max(i, j)) if U else (max(i, j), min(i, j))
+            tot = tot + z3.If(j < n, sc.dense_entry('A', oi + r_, oj + c_, B['C'], times=term), z3.RealVal(0))
+        want = K.fm(g['beta'], z3.Select(y0, py)) + tot
+        obl.append(('y[%d] = beta*y[%d] + alpha*(S x)[%d]' % (i, i, i), z3.Implies(i < n, z3.Select(yf, py) == want)))
+        touched.append((i < n, py))
+    for c in range(B['L']):
+        untouched = z3.And(*[z3.Not(z3.And(t, p == c)) for t, p in touched])
+        obl.append(('cell %d of y outside the vector is unchanged' % c, z3.Implies(z3.And(c < g['LY'], untouched), z3.Select(yf, c) == z3.Select(y0, c))))
+    return obl
+
+KERNELS = {'gemv': (build_gemv, oracle_gemv, [(t, a, b) for t in 'NT' for a in (1, -1) for b in (1, -1)]),
+           'symv': (build_symv, oracle_symv, [(t, a, b) for t in 'UL' for a in (1, -1) for b in (1, -1)])}
 
 # ------------------------------------------------------------------------------------------ job
 
@@ -91,7 +136,7 @@ def job(cfg):
     B = BOUNDS[cfg['tier']]
     build, oracle, _ = KERNELS[cfg['kernel']]
     sc, fname, args, info = build(mod, B, *cfg['variant'])
-    extra_pre = [genuine_block(info)] if cfg['kernel'] == 'gemv' else []
+    extra_pre = [genuine_block(info)] if cfg['kernel'] in ('gemv', 'symv') else []
     ex = X.Executor(mod, sc, max_paths=cfg.get('max_paths', 20000), branch_timeout_ms=3000, loop_bound=B['NNZ'] + B['M'] + 2)
     ex.math_ints = True; ex.fmul = K.fm
     res = {'kernel': cfg['kernel'], 'variant': cfg['variant'], 'paths': 0, 'kinds': {}, 'obl': {'total': 0, 'unsat': 0, 'sat': 0, 'unknown': 0},
@@ -194,6 +239,18 @@ def mk_sp(pref=''):
 def vec(name, L):
     v = [fl(t) for t in m[name]]
     return matrix(v, (len(v), 1), 'd') if v else matrix(0.0, (0, 1))
+if kern == 'symv':
+    A = mk_sp(); x = vec('x', 'LX'); y = vec('y', 'LY'); y2 = matrix(y)
+    kw = dict(uplo=var[0], alpha=fl(m['alpha']), beta=fl(m['beta']), n=int(m['n']), incx=int(m['ix']), incy=int(m['iy']),
+              offsetA=int(m['oA']), offsetx=int(m['ox']), offsety=int(m['oy']))
+    call = 'base.symv(A, x, y, **%r) with A = %s sparse %r, x = %r, y = %r' % (kw, A.size, list(zip(A.I, A.J, A.V)), list(x), list(y))
+    print('CALL ' + call, flush=True)
+    try: base.symv(matrix(A), x, y2, **kw); ref = list(y2)
+    except Exception as e: ref = 'raises %s' % type(e).__name__
+    print('REF ' + json.dumps(ref), flush=True)
+    try: base.symv(A, x, y, **kw); got = list(y)
+    except Exception as e: got = 'raises %s' % type(e).__name__
+    print('GOT ' + json.dumps(got), flush=True)
 if kern == 'gemv':
     A = mk_sp(); x = vec('x', 'LX'); y = vec('y', 'LY'); y2 = matrix(y)
     kw = dict(trans=var[0], alpha=fl(m['alpha']), beta=fl(m['beta']), m=int(m['m']), n=int(m['n']), incx=int(m['ix']), incy=int(m['iy']),
@@ -282,7 +339,7 @@ def main(tier, pid='C16', ev=None):
             if k in known: known_hits.append((k, known[k]['what'])); continue
             violations.append((k, rp, '%s -> %s' % (fs[0]['text'], rep)))
         ev.cov.update({'states': max(1, paths), 'transitions': max(1, ev.obl['total']), 'traces_validated_against_impl': 0, 'instructions_interpreted': instr,
-                       'functions_encoded': ['sparse.c: sp_dgemv'], 'source_hash': ir.src_hash(cfile),
+                       'functions_encoded': ['sparse.c: sp_dgemv, sp_dsymv'], 'source_hash': ir.src_hash(cfile),
                        'bounds': json.dumps(BOUNDS[tier]) + ' (R rows, C columns, NNZ stored entries, M = max m,n, L = max vector length, INC = max |increment|, OFF = max vector offset); loops unrolled to these bounds'})
         ev.assumptions += ["the argument checks of the base.c wrapper (base_gemv) are transcribed as the kernel's precondition, the wrapper itself is not executed",
                            'offsetA addresses a genuine m x n block (no wrap-around of a column): for wrapped blocks the dense BLAS call reads across columns, which the sparse kernel does not imitate (outside)',
